@@ -64,6 +64,9 @@ func c05Config(tp *simkit.Tape) c05Cfg {
 		k := kinds[tp.Weighted(2, 5, 1, 2, 2, 1)]
 		if k == "throttle" {
 			k = fmt.Sprintf("throttle:%d", []int{50, 700, 3000, 15000}[tp.Draw(4)])
+			if tp.Chance(1, 4) {
+				k += "+partial" // one answer that both asks for a delay and names the undelivered subset
+			}
 		}
 		c.Script = append(c.Script, k)
 	}
@@ -217,10 +220,10 @@ func runC05(r *simkit.Run) {
 		case kind == "permanent":
 			outcome = errPermanent
 			r.Count("fault.permanent")
-		case strings.HasPrefix(kind, "throttle"):
+		case strings.HasPrefix(kind, "throttle") && !strings.HasSuffix(kind, "+partial"):
 			outcome = exporterhelper.NewThrottleRetry(errTransient, throttleOf(cfg.Script, attempt))
 			r.Count("fault.throttle")
-		case kind == "partial":
+		case kind == "partial" || strings.HasSuffix(kind, "+partial"):
 			keys := make([]string, 0, len(c.Items))
 			for k := range c.Items {
 				keys = append(keys, k)
@@ -243,6 +246,15 @@ func runC05(r *simkit.Run) {
 			}
 			_ = n
 			r.Count("fault.partial")
+			if strings.HasPrefix(kind, "throttle") {
+				r.Count("fault.throttle_and_partial_in_one_answer")
+				thr := exporterhelper.NewThrottleRetry(errTransient, throttleOf(cfg.Script, attempt))
+				if cfg.Shape == "joined" {
+					outcome = errors.Join(outcome, thr)
+				} else {
+					outcome = exporterhelper.NewThrottleRetry(outcome, throttleOf(cfg.Script, attempt))
+				}
+			}
 		case kind == "hang":
 			r.Count("fault.hang")
 		}
